@@ -27,6 +27,7 @@ import (
 	"math/rand"
 	"net"
 	"os"
+	"runtime"
 	"strconv"
 	"sync"
 	"time"
@@ -611,17 +612,38 @@ func replay(walksPath, tracePath string) {
 	}
 	lg := newLog(tracePath)
 	seed, _ := strconv.ParseInt(os.Getenv("VERIF_SEED"), 10, 64)
+	// sync.Pool is per-P: with one P a codec returned by Close is the one the next Wrap gets
+	runtime.GOMAXPROCS(1)
 	sts := settings()
 	sessions := 0
 	watchdog := ""
 	for wi, walk := range walks {
 		for _, st := range sts {
-			lg.emit(map[string]any{"op": "New", "cfg": st.name, "walk": wi})
-			s, err := newSession(lg, st, seed*1000003+int64(wi))
-			if err == nil {
-				err = s.run(walk)
+			// a "Reopen" step abandons the connection as it is (Close of both endpoints with
+			// whatever is still undelivered or undecoded) and continues the walk on a NEW
+			// connection wrapped by the same wrapper: the pooled codecs of the abandoned
+			// connection are the ones the new connection gets
+			segs := [][]step{nil}
+			for _, x := range walk {
+				if x.Op == "Reopen" {
+					segs = append(segs, nil)
+					continue
+				}
+				segs[len(segs)-1] = append(segs[len(segs)-1], x)
 			}
-			sessions++
+			var err error
+			for si, seg := range segs {
+				lg.emit(map[string]any{"op": "New", "cfg": st.name, "walk": wi, "seg": si})
+				var s *session
+				s, err = newSession(lg, st, seed*1000003+int64(wi)*7+int64(si))
+				if err == nil {
+					err = s.run(seg, si < len(segs)-1)
+				}
+				sessions++
+				if err != nil {
+					break
+				}
+			}
 			if err != nil {
 				watchdog = fmt.Sprintf("%s walk %d: %v", st.name, wi, err)
 				break
@@ -639,7 +661,7 @@ func replay(walksPath, tracePath string) {
 	}
 }
 
-func (s *session) run(walk []step) error {
+func (s *session) run(walk []step, abandon bool) error {
 	for _, st := range walk {
 		switch st.Op {
 		case "Write":
@@ -668,6 +690,14 @@ func (s *session) run(walk []step) error {
 		if err := s.observe(); err != nil {
 			return err
 		}
+	}
+	if abandon { // no drain, no read-to-EOF: close with the decoders in whatever state they are
+		for _, e := range []string{"a", "b"} {
+			if err := s.closeEnd(e); err != nil {
+				return err
+			}
+		}
+		return nil
 	}
 	return s.finish()
 }
